@@ -32,6 +32,14 @@ CHECKS = {
                 technique="symbolic execution of the compiled EvalRates with sentinel-initialised k: the store guard of every k[i] is extracted and SMT-compared with Tmin<=T<Tmax for all T; callers' zero-initialisation read from the compiled Fex/Jac",
                 text="For every window shape (none, lower, upper, both, zero, negative, equal bounds; KROME spellings .LE. > d-exponents NONE) in all six formats, z3 shows for all Tgas that k[i] is assigned iff the window predicate holds; adjacent piecewise windows have exactly one active member at every T including boundaries; Fex/Jac hand EvalRates a zero-initialised array.",
                 note="Temperature is a real-valued symbol (boundaries are ordinary values). Reactions overridden by a rate modifier are excluded by design (C13)."),
+    "C08": dict(engine=E2, cat="exploration", sec="6 C08",
+                technique="CrossHair (z3) drives symbolic selectors over compositions; each selected composition is spelled as a name, parsed by the real Species (untraced) and compared field by field with the composition it was built from; all paths of every condition exhausted",
+                text="All ordered pairs and triples of clash-prone symbols (H/He, C/Cl/Ca, S/Si, N/Na/Ni, F/Fe...), every default element with counts and 6 charge states, surface prefixes '#'/'G', ortho/para labels, the UCLCHEM upper-case list with replacement (renamed names), electrons, grains, H2*, c-/l- isomers: element counts, charge, phase, gas counterpart, mass number and is_atom are exactly those of the composition; names with foreign characters are rejected.",
+                note="Selector enumeration by the solver, not symbolic strings (CrossHair's regex model is unreliable on this tokenizer; stated in DESIGN.md). Mass numbers from an independent table."),
+    "C09": dict(engine=E2, cat="exploration", sec="6 C09",
+                technique="CrossHair-selected name pairs on the real Species.__eq__/__hash__/alias + per-project z3 Distinct/range queries over the index tables read back from every generated artefact (macros through the real preprocessor, Python constants via ast, TOML summary, Enzo patch header)",
+                text="For all ordered pairs of 40 names: equality, hash equality and alias equality coincide with species identity and every alias is a legal identifier; for four rendered projects the species and element macros are bijections onto 0..N-1 and agree with constant_indexes.py, the [summary] written by `naunet render`, and the A_ table of the Enzo patch.",
+                note="Per-project obligations are ground facts (stated as such); names and identity classes are a fixed table."),
     "C14": dict(engine=E2, cat="exploration", sec="6 C14",
                 technique="CrossHair symbolic execution (z3) of the real Network add/remove/allowed-species/source-sink logic on stub species with symbolic integer identities (all paths), plus solver-selected operation sequences on real reactions compared with an explicit model; the extend command is driven for real and compared with the same model",
                 text="From every pre-state with <=2 held reactions one operation of each of 11 kinds keeps species = species of held reactions + required, reactants/products/sources/sinks recomputed, held = added and allowed, none lost; all histories of 2 operations (3 in thorough); setting the allowed list later equals constructing with it; on symbolic stub species the same invariants hold for every aliasing pattern of labels; `naunet extend` keeps exactly the reactions the model predicts.",
